@@ -365,6 +365,10 @@ func cmdImport(args []string) int {
 			case 3:
 				f.GVR = strings.ToUpper(testGVR[2:]) // same bytes, other spelling
 				stats["meta.gvr-spelling"]++
+			case 4, 5:
+				// roots that are not the configured one but a piece of it
+				f.GVR = []string{"", "0x", "0x" + testGVR[len(testGVR)-2:], testGVR[2:], testGVR[:len(testGVR)-2], "0X" + testGVR[2:], testGVR + "00"}[rng.Intn(7)]
+				stats["meta.gvr-piece"]++
 			}
 			nEnt := 1 + rng.Intn(4)
 			for e := 0; e < nEnt; e++ {
@@ -483,6 +487,15 @@ func cmdImport(args []string) int {
 			{"a document cut short", d1[:len(d1)-1], false},
 			{"an empty file", "", false},
 		}
+		// ... and files whose genesis validators root is not the configured one but a piece or another spelling of it
+		for _, piece := range []string{"", "0x", "0x" + testGVR[len(testGVR)-2:], "0x" + testGVR[len(testGVR)-8:], testGVR[:len(testGVR)-2], testGVR + "00"} {
+			fp := &jFile{Version: "5", GVR: piece, Data: f1.Data}
+			shapes = append(shapes, struct {
+				name  string
+				raw   string
+				valid bool
+			}{fmt.Sprintf("a document whose genesis validators root is %q", piece), string(fp.JSON()), false})
+		}
 		for _, sh := range shapes {
 			base, err := newBaseDir()
 			if err != nil {
@@ -506,6 +519,7 @@ func cmdImport(args []string) int {
 					probeFail = probeAfterImport(ctx, r, f1, empty, kt)
 					if !sh.valid {
 						probeFail = append(probeFail, probeAfterImport(ctx, r, f2, empty, kt)...)
+						probeFail = append(probeFail, "a file that must be refused was imported")
 					}
 				}
 				return nil
